@@ -86,6 +86,8 @@ AlphaMarker ==
      EvMark("a"), EvRef("a"), EvMark("b"), EvRef("b"), EvRT("a"),
      EvIdX("OnMarker", "", 0, TRUE), EvIdX("OnReferenceLocal", "a", 1, FALSE),
      EvNan, EvABegin("string"), EvChunk(1, FALSE), EvData(<<99>>),
+     (* a marked float is no map key, a marked null no edge source or destination *)
+     EvFloat("f64:3ff8000000000000"),
      (* what may not be marked, in whole and in chunked form *)
      EvSArr("rref", <<97>>), EvABegin("rref") >>
 
@@ -108,7 +110,8 @@ AlphaAll ==
      EvK("OnBigDecimalFloat", "float", "bdf:15:-1"), EvK("OnBigDecimalFloat", "float", "bdf:-0:0"),
      EvSp("OnBigDecimalFloat", "float", "nil"), EvSp("OnBigDecimalFloat", "float", "qnan"),
      EvSp("OnBigDecimalFloat", "float", "snan"),
-     EvUid("000102030405060708090a0b0c0d0e0f"), EvNan, EvSp("OnNan", "nan", "snan"),
+     EvUid("000102030405060708090a0b0c0d0e0f"), [EvUid("010203") EXCEPT !.pok = FALSE],
+     [EvUid("000102030405060708090a0b0c0d0e0f10") EXCEPT !.pok = FALSE], EvNan, EvSp("OnNan", "nan", "snan"),
      EvDate("2000-01-01", <<50,48,48,48,45,48,49,45,48,49>>),
      [EvDate("", <<>>) EXCEPT !.sp = "nil"], [EvDate("2000-01-01", <<50,48,48,48,45,48,49,45,48,49>>) EXCEPT !.pok = FALSE],
      [EvDate("12:30:01.000000005/A:Europe/Berlin", <<>>) EXCEPT !.bytes = <<>>],
@@ -141,6 +144,7 @@ AlphaKeysScalar ==
      EvBool("OnTrue", "true"), EvBool("OnBoolean", "true"), EvBool("OnFalse", "false"),
      EvBool("OnBoolean", "false"),
      EvUid("00000000000000000000000000000001"), EvUid("01000000000000000000000000000000"),
+     [EvUid("01") EXCEPT !.pok = FALSE], [EvUid("0100000000000000000000000000000000") EXCEPT !.pok = FALSE],
      EvDate("2000-01-01", <<50,48,48,48,45,48,49,45,48,49>>),
      EvDate("2000-01-02", <<50,48,48,48,45,48,49,45,48,50>>),
      EvStr(<<50,48,48,48,45,48,49,45,48,49>>), EvStr(<<53>>), EvRid(<<53>>) >>
@@ -201,6 +205,8 @@ AlphaArrWhole ==
   << EvEnd, EvED,
      EvStr(<<97>>), EvStr(<<195, 169>>), EvStr(<<195>>), EvStr(<<255>>), EvStrA(<<226, 130, 172>>), EvStrA(<<130>>),
      EvRid(<<97>>), EvRid(<<195>>), EvArr("rid", 1, <<169>>),
+     (* a declared element count that is not the data's *)
+     EvArr("string", 3, <<97, 98>>), EvArr("rid", 1, <<97, 98>>), EvArr("rref", 0, <<97>>),
      EvSArr("rref", <<97>>), EvSArr("rref", <<255>>), EvArr("rref", 1, <<255>>), EvArr("rref", 1, <<97>>),
      [EvCTxt(<<97>>) EXCEPT !.ct = 1], [EvCTxt(<<255>>) EXCEPT !.ct = 1],
      [EvCBin(<<255>>) EXCEPT !.ct = 1],
